@@ -62,7 +62,7 @@ struct Sim<M: Machine> {
 fn binding(id: usize, ext: bool) -> ContextBinding {
     ContextBinding {
         var: ident("v", id),
-        chi: if ext { Chirality::Ext } else { Chirality::Prd },
+        chi: if ext { Chirality::Ext } else if id % 2 == 0 { Chirality::Prd } else { Chirality::Cns }, // heap objects of both polarities (data values and closures/continuations)
         ty: if ext { Ty::I64 } else { Ty::Decl(ident("T", 0)) },
     }
 }
